@@ -40,6 +40,7 @@ impl Prop for C11Prop {
             keyings: 1,
             boundary_per_mille: 8,
             huge_one_in: 1500,
+            hub_one_in: 0,
         }
         .gen("C11", seed, idx / 8 * 7 + idx % 8);
         let k = match tier {
